@@ -79,12 +79,13 @@ MTxe    == Keep /\ \E c \in {LGOOD, LCRD, LRTY, LBAD, LUP} :
 MHps    == Keep /\ Step([e |-> "hps", dt |-> 0, ns |-> 0])
 MHpe    == Keep /\
            \/ t_cur.k = "real" /\ \E dl \in BOOLEAN :
-                 Step([e |-> "hpe", dt |-> 0, ok |-> TRUE, s |-> t_cur.s, dl |-> dl, c |-> t_cur.c, cs |-> 0, sk |-> 0])
+                 Step([e |-> "hpe", dt |-> 0, ok |-> TRUE, s |-> t_cur.s, dl |-> dl, c |-> t_cur.c, cs |-> 0, sk |-> 0,
+                       dph |-> FALSE])
            \/ t_cur.k = "void" /\ \E i \in 1..Len(t_unacked), dl \in BOOLEAN :
                  Step([e |-> "hpe", dt |-> 0, ok |-> TRUE, s |-> t_unacked[i].s, dl |-> dl, c |-> t_unacked[i].c,
-                       cs |-> 0, sk |-> 0])
+                       cs |-> 0, sk |-> 0, dph |-> FALSE])
            \/ t_cur.k = "stale" /\ Step([e |-> "hpe", dt |-> 0, ok |-> TRUE, s |-> 0, dl |-> FALSE, c |-> 0,
-                                         cs |-> 0, sk |-> 0])
+                                         cs |-> 0, sk |-> 0, dph |-> FALSE])
 MQuiet  == Keep /\ Step([e |-> "quiet", dt |-> 0, ns |-> 0, qv |-> lk.up /\ r_buf # <<>>,
                          qr |-> lk.up /\ Tx!ReadyExpected])
 (* ---- time and internal steps --------------------------------------------- *)
